@@ -1064,6 +1064,9 @@ def group_nearby_members(
     out = np.full(len(group_key), -1)
     for i in range(len(group_key)):
         key = group_key[i]
+        if key < 0:
+            # rows with a null key belong to no group (and no sub-group)
+            continue
         current_value = values[i]
         if not seen[key]:
             seen[key] = True
